@@ -17,8 +17,8 @@ from ref import secp, sighash, taproot, sign as rsign, tx as rtx, verify
 from checks.lockstep import parse_events
 
 PROP = 'C03'
-TYPES = ['p2pk', 'multisig', 'p2pkh', 'p2sh-multisig', 'p2sh-hashlock', 'p2wpkh', 'p2wsh', 'p2sh-p2wpkh', 'p2sh-p2wsh', 'p2tr-key', 'p2tr-script', 'p2wsh-timelock', 'p2sh-timelock', 'p2wsh-hashlock', 'witness-program']
-SEGWIT = {'witness-program', 'p2wpkh', 'p2wsh', 'p2sh-p2wpkh', 'p2sh-p2wsh', 'p2tr-key', 'p2tr-script', 'p2wsh-timelock', 'p2wsh-hashlock'}
+TYPES = ['p2pk', 'multisig', 'p2pkh', 'p2sh-multisig', 'p2sh-hashlock', 'p2wpkh', 'p2wsh', 'p2sh-p2wpkh', 'p2sh-p2wsh', 'p2tr-key', 'p2tr-script', 'p2wsh-timelock', 'p2sh-timelock',  'p2wsh-hashlock', 'witness-program', 'odd-spk']
+SEGWIT = {'witness-program', 'odd-spk', 'p2wpkh', 'p2wsh', 'p2sh-p2wpkh', 'p2sh-p2wsh', 'p2tr-key', 'p2tr-script', 'p2wsh-timelock', 'p2wsh-hashlock'}
 SATS = {
     'p2pk': ['valid', 'wrong-key', 'altered-output', 'altered-sequence', 'altered-locktime', 'non-push-scriptsig', 'leftover-stack', 'unexpected-witness', 'split-conditional', 'altstack-carry', 'wrong-amount',
              'opcount-201-in-each-script', 'opcount-202-in-scriptpubkey', 'opcount-202-in-scriptsig', 'other-input-has-witness'],
@@ -26,11 +26,11 @@ SATS = {
     'p2pkh': ['valid', 'wrong-key', 'wrong-pubkey-hash', 'altered-output', 'altered-locktime', 'unexpected-witness', 'leftover-stack', 'wrong-amount', 'other-input-has-witness'],
     'p2sh-multisig': ['valid', 'wrong-key', 'wrong-script-hash', 'altered-output', 'non-push-scriptsig', 'leftover-stack', 'wrong-order', 'other-input-has-witness'],
     'p2sh-hashlock': ['valid', 'wrong-preimage', 'wrong-script-hash', 'non-push-scriptsig', 'leftover-stack'],
-    'p2wpkh': ['valid', 'wrong-key', 'wrong-pubkey-hash', 'wrong-amount', 'altered-output', 'altered-sequence', 'extra-witness-item', 'missing-witness-item', 'nonempty-scriptsig', 'uncompressed-key'],
+    'p2wpkh': ['valid', 'wrong-key', 'wrong-pubkey-hash', 'wrong-amount', 'altered-output', 'altered-sequence', 'extra-witness-item', 'missing-witness-item', 'nonempty-scriptsig', 'uncompressed-key', 'empty-witness'],
     'p2wsh': ['valid', 'wrong-key', 'wrong-script-hash', 'wrong-amount', 'altered-output', 'extra-witness-item', 'missing-witness-item', 'witness-item-521', 'leftover-stack', 'nonempty-scriptsig', 'false-result'],
-    'p2sh-p2wpkh': ['valid', 'wrong-key', 'wrong-script-hash', 'wrong-amount', 'altered-locktime', 'scriptsig-trailing-op', 'scriptsig-nonminimal-push', 'extra-witness-item'],
+    'p2sh-p2wpkh': ['valid', 'wrong-key', 'wrong-script-hash', 'wrong-amount', 'altered-locktime', 'scriptsig-trailing-op', 'scriptsig-nonminimal-push', 'extra-witness-item', 'empty-witness'],
     'p2sh-p2wsh': ['valid', 'wrong-key', 'wrong-script-hash', 'wrong-witness-script-hash', 'wrong-amount', 'scriptsig-trailing-op', 'leftover-stack'],
-    'p2tr-key': ['valid', 'wrong-key', 'wrong-amount', 'altered-output', 'altered-sequence', 'annex', 'annex-unsigned', 'hashtype-single', 'bad-sig-size', 'multi-input', 'sig-first-byte-0x50'],
+    'p2tr-key': ['valid', 'wrong-key', 'wrong-amount', 'altered-output', 'altered-sequence', 'annex', 'annex-unsigned', 'hashtype-single', 'bad-sig-size', 'multi-input', 'sig-first-byte-0x50', 'empty-witness'],
     'p2tr-script': ['valid', 'wrong-key', 'wrong-amount', 'altered-output', 'control-parity', 'control-internal-key', 'control-node', 'control-leaf-version', 'control-truncated', 'wrong-script', 'annex',
                     'extra-witness-item', 'leftover-stack', 'false-result', 'op-success', 'unknown-leaf-version', 'empty-script', 'multi-input', 'many-checks', 'many-checks-annex', 'p2sh-shaped-leaf',
                     'initial-stack-999', 'initial-stack-1000', 'initial-stack-1001', 'initial-stack-998-annex', 'initial-stack-1000-annex', 'initial-stack-1001-annex'],
@@ -39,8 +39,10 @@ SATS = {
     'p2sh-timelock': ['csv-ok', 'csv-too-early', 'csv-highbits-too-early', 'csv-version1', 'csv-version-high-bit', 'cltv-ok', 'cltv-too-early', 'cltv-final-sequence', 'cltv-type-mismatch'],
     # witness items are bytes, whatever they look like as text; a witness script is run as it is, whatever it looks like
     # witness programs other than v0/20, v0/32 and native v1/32: future versions succeed unless discouraged, v0 of another length fails
-    'witness-program': ['v2-32-bytes', 'v16-2-bytes', 'v1-33-bytes', 'v1-2-bytes', 'v0-25-bytes', 'v0-2-bytes', 'p2sh-wrapped-v1-32-bytes', 'p2sh-wrapped-v5-20-bytes', 'v2-40-bytes'],
-    'p2wsh-hashlock': ['valid', 'wrong-preimage', 'digits-only-preimage', 'two-digit-items', 'p2sh-shaped-witness-script', 'p2sh-shaped-witness-script-inner-fails', 'opcode-name-preimage', 'leftover-stack',
+    'witness-program': ['v2-32-bytes', 'v16-2-bytes', 'v1-33-bytes', 'v1-2-bytes', 'v0-25-bytes', 'v0-2-bytes', 'p2sh-wrapped-v1-32-bytes', 'p2sh-wrapped-v5-20-bytes', 'v2-40-bytes', 'p2sh-wrapped-v1-valid-keypath'],
+    # scriptPubKeys that only LOOK like pay-to-script-hash (or are nearly one), spent like a P2SH-wrapped segwit output
+    'odd-spk': ['hash160-equal-nop', 'hash160-equal-verify-1', 'hash160-return', 'hash160-21-bytes', 'hash160-19-bytes'],
+    'p2wsh-hashlock': ['undefined-opcode-unexecuted', 'valid', 'wrong-preimage', 'digits-only-preimage', 'two-digit-items', 'p2sh-shaped-witness-script', 'p2sh-shaped-witness-script-inner-fails', 'opcode-name-preimage', 'leftover-stack',
                        'script-521-bytes', 'script-9999-bytes', 'script-10000-bytes', 'script-10001-bytes'],
 }
 FLAGMODS = {
@@ -49,15 +51,16 @@ FLAGMODS = {
     'p2pkh': ['CLEANSTACK', 'WITNESS', 'STRICTENC'],
     'p2sh-multisig': ['P2SH', 'NULLDUMMY', 'CLEANSTACK'],
     'p2sh-hashlock': ['P2SH', 'CLEANSTACK', 'MINIMALDATA'],
-    'p2wpkh': ['WITNESS', 'WITNESS_PUBKEYTYPE', 'NULLFAIL'],
+    'p2wpkh': ['WITNESS', 'WITNESS_PUBKEYTYPE', 'NULLFAIL', 'CLEANSTACK'],
     'p2wsh': ['WITNESS', 'CLEANSTACK', 'MINIMALIF', 'NULLFAIL'],
-    'p2sh-p2wpkh': ['WITNESS', 'P2SH'],
+    'p2sh-p2wpkh': ['WITNESS', 'P2SH', 'CLEANSTACK'],
     'p2sh-p2wsh': ['WITNESS', 'P2SH'],
-    'p2tr-key': ['TAPROOT', 'WITNESS'],
+    'p2tr-key': ['TAPROOT', 'WITNESS', 'CLEANSTACK'],
     'p2tr-script': ['TAPROOT', 'DISCOURAGE_OP_SUCCESS', 'DISCOURAGE_UPGRADABLE_TAPROOT_VERSION', 'DISCOURAGE_UPGRADABLE_PUBKEYTYPE'],
     'p2wsh-timelock': ['CHECKSEQUENCEVERIFY', 'CHECKLOCKTIMEVERIFY', 'WITNESS'],
     'p2sh-timelock': ['CHECKSEQUENCEVERIFY', 'CHECKLOCKTIMEVERIFY', 'P2SH'],
     'p2wsh-hashlock': ['WITNESS', 'P2SH', 'CLEANSTACK', 'MINIMALIF'],
+    'odd-spk': ['WITNESS', 'CLEANSTACK', 'P2SH'],
     'witness-program': ['DISCOURAGE_UPGRADABLE_WITNESS_PROGRAM', 'DISCOURAGE_UPGRADABLE_WITNESS_PROGRAM', 'DISCOURAGE_UPGRADABLE_WITNESS_PROGRAM', 'WITNESS', 'TAPROOT'],
 }
 
@@ -117,6 +120,25 @@ def build(rng, otype, sat):
         wscript = rng.choice([rsign.spk_p2pk(pub), rsign.multisig_script(2, pubs3)])
         redeem = rsign.spk_p2wsh(wscript)
         spk = rsign.spk_p2sh(redeem)
+    elif otype == 'odd-spk':
+        redeem = rsign.spk_p2wpkh(pub)
+        h = hash160(redeem)
+        if sat == 'hash160-equal-nop':
+            spk = bytes([OP_HASH160]) + push_only(h) + bytes([OP_EQUAL, OP_NOP])
+        elif sat == 'hash160-equal-verify-1':
+            spk = bytes([OP_HASH160]) + push_only(h) + bytes([OP_EQUAL, OP_VERIFY, OP_1])
+        elif sat == 'hash160-return':
+            spk = bytes([OP_HASH160]) + push_only(h) + bytes([OP_RETURN])
+        elif sat == 'hash160-21-bytes':
+            spk = bytes([OP_HASH160]) + push_only(h + b'\x00') + bytes([OP_EQUAL])
+        else:
+            spk = bytes([OP_HASH160]) + push_only(h[:19]) + bytes([OP_EQUAL])
+    elif otype == 'witness-program' and sat == 'p2sh-wrapped-v1-valid-keypath':
+        internal = secp.xonly_from_sec(sk)
+        q, par = taproot.output_key(internal, None)
+        tweaked = rsign.tweak_seckey(sk, internal, None)
+        redeem = rsign.spk_p2tr(q)
+        spk = rsign.spk_p2sh(redeem)
     elif otype == 'witness-program':
         ver = int(sat.split('-v')[1].split('-')[0]) if sat.startswith('p2sh') else int(sat.split('-')[0][1:])
         plen = int(sat.split('-')[-2])
@@ -133,7 +155,10 @@ def build(rng, otype, sat):
             pre = rng.choice([b'OP_1', b'add', b'OP_DUP', b'0x51', b'[OP_1]', b'hash160(00)', b'-1', b'1e3', b' 12'])
         else:
             pre = rng.choice([digits_only_bytes(rng), rsign.rnd_bytes(rng, rng.choice([1, 2, 16, 32]))])
-        if sat.startswith('script-'):
+        if sat == 'undefined-opcode-unexecuted':
+            # an undefined opcode fails only when it is executed: inside a branch that is not taken the spend is valid
+            wscript = bytes([OP_0, OP_IF, rng.choice([0xff, 0xbb, 0xfe]), OP_ENDIF, OP_SHA256]) + push_only(sha256(pre)) + bytes([OP_EQUAL])
+        elif sat.startswith('script-'):
             # the witness script itself may be up to 10,000 bytes long (the 520-byte rule is for stack items, the script is not one)
             target = int(sat.split('-')[1])
             body = bytes([OP_SHA256]) + push_only(sha256(pre)) + bytes([OP_EQUAL])
@@ -337,6 +362,18 @@ def build(rng, otype, sat):
             ssig = push_only(r2)
     elif otype == 'p2wsh-timelock':
         wit = [wsig(wscript), wscript]
+    elif otype == 'odd-spk':
+        # a correctly signed P2WPKH witness and the "redeem script" in the scriptSig, as for a P2SH-P2WPKH output
+        wit = [wsig(rsign.spk_p2pkh(pub)), pub]
+        ssig = push_only(redeem)
+    elif otype == 'witness-program' and sat == 'p2sh-wrapped-v1-valid-keypath':
+        # a valid BIP341 key-path signature - but a v1 program wrapped in P2SH is NOT taproot (BIP341): it is an unknown program
+        tx.wit[idx] = [b'\x00' * 64]
+        spent[idx] = (amount, redeem)
+        d = sighash.sighash_taproot(tx, idx, 0, [(amount, redeem) if i == idx else x for i, x in enumerate(spent)], 0, None)
+        spent[idx] = (amount, spk)
+        wit = [rsign.sign_schnorr(tweaked, d if d else b'\x00' * 32, 0)]
+        ssig = push_only(redeem)
     elif otype == 'witness-program':
         wit = rng.choice([[b'\x01'], [b''], [b'\x01', b'\x51'], [rsign.rnd_bytes(rng, 64)]])
         if sat.startswith('p2sh'):
@@ -400,7 +437,10 @@ def build(rng, otype, sat):
         scr = tap_script if sat != 'wrong-script' else tap_script + bytes([OP_NOP])
         wit = args + [scr, ctl] + ([annex] if annex is not None else [])
     # ---- generic satisfactions on the assembled spend
-    if sat == 'extra-witness-item':
+    if sat == 'empty-witness':
+        # a witness program must be given a witness: spending it with an empty one is invalid (WITNESS_PROGRAM_WITNESS_EMPTY)
+        wit = []
+    elif sat == 'extra-witness-item':
         wit = [b'\x01'] + wit
     elif sat == 'missing-witness-item' and wit:
         wit = wit[1:]
@@ -562,6 +602,18 @@ def worker(job):
                 args.append('--modify-flags=' + fs)
             r = proc.run([btcdeb] + args, wd, mode='ptyin', timeout=30)
             judge_binary(sc, r, part)
+            if zlib_crc(sc['id'] + 'sel') % 4 == 0:
+                # a selection that is not a plain index must be refused, never read as some other input
+                bad = rng.choice(['abc', '-2', '-1x', '1x', '', '4294967296', '4294967297', '0x0', ' 0', '99999999999999999999', '+0', '0.0'])
+                args2 = [a for a in args if not a.startswith('--select=')] + ['--select=' + bad]
+                r2 = proc.run([btcdeb] + args2, wd, mode='ptyin', timeout=30)
+                part.evaluations += 1
+                part.count('selection', 'malformed-select:' + ('refused' if r2.rc not in (0, None) else 'accepted'))
+                w2 = dict(wit_of(sc), select_text=bad, run=r2.brief())
+                if r2.abnormal:
+                    part.violation('selection:malformed-select:' + r2.crash_key('btcdeb'), w2)
+                elif r2.rc == 0 or not r2.stderr.strip():
+                    part.violation('selection:malformed-select-accepted', w2)
     finally:
         cleanup_scratch(wd)
     return part.dump()
